@@ -231,6 +231,20 @@ CHECKS.update({
     ),
 })
 
+CHECKS.update({
+    "C18": (
+        "generated polynomial integrands over fields of exactly known degree; oracle = least-squares fit of a polynomial of the estimated degree to interpreter samples along random lines (reproduces the samples iff the estimate is not too low)",
+        "Hypothesis-generated polynomial integrands (algebra, integer powers, indexing, tensor algebra, derivatives, x, "
+        "constants) over coefficients/arguments on Lagrange/DG/Piola/symmetric elements and a mixed element with "
+        "sub-elements of different degree and shape (fixed components accessed), flat and immersed affine cells; the "
+        "estimate of estimate_total_polynomial_degree (raw and preprocessed integrand) and the degree attached by "
+        "compute_form_data must admit an exact polynomial fit of that degree to the integrand sampled along two random "
+        "lines through the reference cell.",
+        "Trusts the interpreter; degree along a generic line equals the total degree; residual threshold 1e-7 relative.",
+        "4/C18",
+    ),
+})
+
 NOT_YET = {}
 
 
